@@ -537,7 +537,19 @@ func (e *Env) Apply(op Op) {
 		o.MaxSize = uint64(op.A * e.Cfg.PageSize)
 		o.Prealloc = op.B == 1
 		old := e.Cfg.MaxPages
+		// previous extent: the bytes on disk or, if larger, the page range the file has handed out
+		// (pages that were allocated but never written lie inside the file, whatever its length says)
 		prevExtent := e.Disk.Len()
+		if e.F != nil {
+			s := e.F.VerifSnapshot()
+			end := s.DataEnd
+			if s.MetaEnd > end {
+				end = s.MetaEnd
+			}
+			if x := int64(end) * int64(e.Cfg.PageSize); x > prevExtent {
+				prevExtent = x
+			}
+		}
 		if e.Reopen(o) {
 			e.Cfg.MaxPages = op.A
 			e.Opts.MaxSize = o.MaxSize
